@@ -312,6 +312,9 @@ func (e *Env) build(op *Op) (*Built, string) {
 		if v := e.ref(op.V, nil); v != nil {
 			m.Validator = v.ValAddr.String()
 		}
+		if op.W > 0 {
+			m.Description = &nodetypes.Description{Moniker: a.Name, Details: fmt.Sprintf("details-%d", op.W), Website: "https://example.org"}
+		}
 		return &Built{Msgs: []sdk.Msg{m}, Signer: a}, ""
 	case "add_vstorage":
 		return &Built{Msgs: []sdk.Msg{nodetypes.NewMsgAddVstorage(a.AddrS, uint64(op.N))}, Signer: a}, ""
